@@ -188,3 +188,54 @@ def dml(rng):
     if k == 'create-as-model':
         return k, 'CREATE OR REPLACE TABLE int2.newt (SELECT t.id, m.y FROM int1.t1 AS t JOIN mindsdb.m1 AS m)'
     return k, 'CREATE TABLE int1.newt (a int, b text)'
+
+
+def limit_query(rng):
+    """Joins with LIMIT/OFFSET whose ORDER BY (if any) names only the first table: the shapes where a planner is tempted to
+    push ORDER BY / LIMIT into the first fetch.  Returns (text, mode, limit, offset); mode 'ordered' = total order (join on unique
+    ids), 'unordered' = no ORDER BY (any `limit` rows of the full result are a correct answer)."""
+    r = rng
+    t1, t2 = r.choice(['t1', 't2', 't3']), r.choice(['t1', 't2', 't3'])
+    jt = r.choice(['JOIN', 'INNER JOIN', 'LEFT JOIN', 'LEFT OUTER JOIN'])
+    key2 = r.choice(['id', 'id', 'a' if t2 != 't3' else 'x'])
+    on = f'p.id = q.{key2}'
+    if r.random() < 0.3:
+        on += f' AND q.id {r.choice(["<", ">", "!="])} {r.choice([1, 2, 3])}'
+    s = f'SELECT p.id AS id_p, q.id AS id_q FROM {qual_multi(t1)} AS p {jt} {qual_multi(t2)} AS q ON {on}'
+    if r.random() < 0.4:
+        s += f' WHERE {r.choice(["p.id > 1", "q.id IS NOT NULL", "p.id != 2", "q.id < 5"])}'
+    lim = r.choice([1, 2, 3])
+    off = r.choice([None, None, 1, 2])
+    if key2 == 'id' and r.random() < 0.3:
+        # multi-key total order whose leading key (with duplicates) is from the first table and a later key from the joined one
+        lead = 'a' if t1 != 't3' else 'x'
+        s += f' ORDER BY p.{lead}{r.choice(["", " DESC"])} NULLS LAST, q.id{r.choice(["", " DESC"])} NULLS LAST, p.id'
+        s += f' LIMIT {lim}' + (f' OFFSET {off}' if off is not None else '')
+        return s, 'ordered', lim, off or 0
+    if key2 == 'id' and r.random() < 0.6:
+        s += f' ORDER BY p.id{r.choice(["", " DESC"])}'
+        mode = 'ordered'
+    else:
+        mode = 'unordered'
+    s += f' LIMIT {lim}'
+    if off is not None:
+        s += f' OFFSET {off}'
+    return s, mode, lim, off or 0
+
+
+def cte_query(rng):
+    """CTEs whose name may coincide with a real table of another integration that the same statement also uses
+    (join partner, IN-subquery, UNION branch).  Returns text (unordered result)."""
+    r = rng
+    name = r.choice(['cte1', 't1', 't2', 't3', 't2', 't3'])
+    src = r.choice(['t1', 't2', 't3'])
+    body = f'SELECT s.id AS id, s.{"a" if src != "t3" else "x"} AS v FROM {qual_multi(src)} AS s WHERE s.id {r.choice(["<", ">", "!="])} {r.choice([2, 3, 4])}'
+    other = r.choice(['t1', 't2', 't3'])
+    k = r.choice(['join', 'in-sub', 'union', 'plain'])
+    if k == 'join':
+        return f'WITH {name} AS ({body}) SELECT c.id AS cid, c.v AS cv, o.id AS oid FROM {name} AS c {r.choice(["JOIN", "LEFT JOIN"])} {qual_multi(other)} AS o ON c.id = o.id'
+    if k == 'in-sub':
+        return f'WITH {name} AS ({body}) SELECT c.id AS cid, c.v AS cv FROM {name} AS c WHERE c.id IN (SELECT o.id FROM {qual_multi(other)} AS o WHERE o.id > 1)'
+    if k == 'union':
+        return f'WITH {name} AS ({body}) SELECT c.id AS id FROM {name} AS c UNION ALL SELECT o.id AS id FROM {qual_multi(other)} AS o'
+    return f'WITH {name} AS ({body}) SELECT c.id AS cid, c.v AS cv FROM {name} AS c WHERE c.v IS NOT NULL'
